@@ -63,6 +63,12 @@ structure RepIndep (sp : ASpec G) (HS : PJ → List (Int × Int) → G → Prop)
   /-- `P * k` from any hidden state -/
   hs_mul : ∀ {P t g} (k : Int), HS P t g → GenOK P → k ≠ 0 → k ≠ 1 →
     ∃ v, pjMulWith t P k = .ok v ∧ RFresh HS v (k • g) P.order
+  /-- `mul_add`: the test "the sum of the two operands is at infinity" on scaled operands -/
+  hs_sumInf : ∀ {SP t g SQ t' h}, HS SP t g → HS SQ t' h → SP.z = 1 → SQ.z = 1 →
+    tripleInf (Gen.k_add SP.x SP.y SP.z SQ.x SQ.y SQ.z SP.curve.p SP.curve.a) = decide (g + h = 0)
+  /-- `mul_add`: the main loop on scaled operands whose sum is not at infinity, for any two multipliers -/
+  hs_mulAddLoop : ∀ {SP t g SQ t' h} (sm om : Int), HS SP t g → HS SQ t' h → SP.z = 1 → SQ.z = 1 → g + h ≠ 0 →
+    RFresh HS (mulAddLoop SP SQ sm om) (sm • g + om • h) SP.order
   /-- `==` decides equality of the denoted values -/
   eq_jj : ∀ {P t g Q t' h}, HS P t g → HS Q t' h → ptEq (.jac P) (.jac Q) = decide (g = h)
   eq_ja : ∀ {P t g A h}, HS P t g → HA A h → ptEq (.jac P) (.aff A) = decide (g = h) ∧ ptEq (.aff A) (.jac P) = decide (h = g)
